@@ -430,6 +430,69 @@ theorem phaseCorrection_gauge (t t' : STab) (hg : t.Good) (hg' : t'.Good) (hs : 
   intro k hk
   rw [hM1 i k hi' hk, hM2 i k hi' hk, (hrows k (nN ▸ hk)).2.1]
 
+/-- another generating set (real, commuting, `n` rows) of the group of a stabilizer state is independent too -/
+theorem indep_of_spanEq (t t' : STab) (hn : 0 < t.n) (hg : t.Good) (hg' : t'.Good) (hi : Indep (XZ.ofSTab t)) (hs : SpanEq t t') :
+    Indep (XZ.ofSTab t') := by
+  obtain ⟨g, eg⟩ := graphFinderWith_complete gf2InvF (XZ.ofSTab t) hn (gf2InvF_ok t.n) (comm_ofSTab t hg) hi
+  have spec := graphFinderWith_spec gf2InvF _ g eg
+  obtain ⟨Awf, _, _, _, _, Afull⟩ := afterLC_of_spec t hg.real g spec
+  have hnn : t'.n = t.n := hs.n_eq.symm
+  have Awf' : ∀ g', g' ∈ lcGates g.hpos g.zdiag → g'.WF t'.n := fun g' h => hnn ▸ Awf g' h
+  have sRR := runCircuit_spanEq t t' (lcGates g.hpos g.zdiag) Awf hs hg hg'
+  have nT : (t'.runCircuit (lcGates g.hpos g.zdiag)).n = t.n := by rw [runCircuit_n]; exact hnn
+  have hfull : FullX (t'.runCircuit (lcGates g.hpos g.zdiag)) := by
+    intro j hj
+    rw [nT] at hj
+    obtain ⟨p, hp, hpx⟩ := Afull j hj
+    exact ⟨p, sRR.sub p hp, fun k hk => hpx k (nT ▸ hk)⟩
+  have hind := indep_of_fullX _ hfull
+  intro c hc i hi'
+  have hn0 : (XZ.ofSTab t').n = t.n := hnn
+  rw [hn0] at hc hi'
+  have hnT : (XZ.ofSTab (t'.runCircuit (lcGates g.hpos g.zdiag))).n = t.n := nT
+  apply hind c _ i (by rw [hnT]; exact hi')
+  intro j hj
+  rw [hnT] at hj ⊢
+  -- bits of the transformed rows
+  have rowx : ∀ m, m < t.n → ((t'.runCircuit (lcGates g.hpos g.zdiag)).row m).x j =
+      hx g.hpos (t'.row m).x (t'.row m).z j := by
+    intro m hm
+    have er := runCircuit_row t' _ Awf' m (hnn ▸ hm)
+    rw [hnn] at er
+    rw [(er.1 j hj).1, (actCirc_lcGates_bits g.hpos g.zdiag spec.hpos_nodup spec.zdiag_nodup (t'.row m) j).1]
+  have rowz : ∀ m, m < t.n → ((t'.runCircuit (lcGates g.hpos g.zdiag)).row m).z j =
+      xor (hx g.hpos (t'.row m).z (t'.row m).x j) (g.zdiag.contains j && hx g.hpos (t'.row m).x (t'.row m).z j) := by
+    intro m hm
+    have er := runCircuit_row t' _ Awf' m (hnn ▸ hm)
+    rw [hnn] at er
+    rw [(er.1 j hj).2, (actCirc_lcGates_bits g.hpos g.zdiag spec.hpos_nodup spec.zdiag_nodup (t'.row m) j).2.1]
+  have sx : parityTo t.n (fun m => c m && hx g.hpos (t'.row m).x (t'.row m).z j) = false := by
+    simp only [hx]
+    split
+    · exact (hc j hj).2
+    · exact (hc j hj).1
+  have sz : parityTo t.n (fun m => c m && hx g.hpos (t'.row m).z (t'.row m).x j) = false := by
+    simp only [hx]
+    split
+    · exact (hc j hj).1
+    · exact (hc j hj).2
+  constructor
+  · rw [← sx]
+    apply parityTo_congr
+    intro m hm
+    show (c m && ((t'.runCircuit (lcGates g.hpos g.zdiag)).row m).x j) = _
+    rw [rowx m hm]
+  · have : parityTo t.n (fun m => c m && ((t'.runCircuit (lcGates g.hpos g.zdiag)).row m).z j) =
+        xor (parityTo t.n (fun m => c m && hx g.hpos (t'.row m).z (t'.row m).x j))
+          (g.zdiag.contains j && parityTo t.n (fun m => c m && hx g.hpos (t'.row m).x (t'.row m).z j)) := by
+      rw [and_parityTo, ← parityTo_xor]
+      apply parityTo_congr
+      intro m hm
+      rw [rowz m hm]
+      cases c m <;> cases g.zdiag.contains j <;> simp
+    show parityTo t.n (fun m => c m && ((t'.runCircuit (lcGates g.hpos g.zdiag)).row m).z j) = false
+    rw [this, sx, sz]; simp
+
 /-- **`state_to_graph` depends only on the state**: two generating sets (real, commuting, independent) of the same signed group are
     converted to the same graph with the same gate list -/
 theorem stateToGraph_gauge_indep (t t' : STab) (hn : 0 < t.n) (hg : t.Good) (hg' : t'.Good)
